@@ -53,6 +53,12 @@ type lkSite struct {
 	held bool
 }
 
+// a call of the persistence layer from one of the cache's own functions
+type lkPSite struct {
+	fn, callee, lock string
+	line             int
+}
+
 // lkPkg: declarations of the package, enough to resolve the types of the expressions that matter.
 type lkPkg struct {
 	c        *Ctx
@@ -67,6 +73,7 @@ type lkPkg struct {
 
 	accesses []lkAccess
 	sites    []lkSite
+	psites   []lkPSite
 	writes   []lkAccess
 	decoders []lkSite
 	unrec    []string
@@ -591,6 +598,18 @@ func (f *lkFunc) scan(e ast.Expr, write bool) {
 			if lkLockMethods[m] && (rt == "Session" || rt == "cache" || strings.HasPrefix(rt, "sync.")) {
 				p.bad(x.Pos(), f.name, "lock operation %s outside a plain statement", exprText(p.c, x))
 			}
+			if exprText(p.c, fun.X) == "Persistence" && (strings.HasPrefix(f.name, "cache.") || f.name == "PurgeSessions") {
+				lock := "none"
+				for _, recv := range []string{"c", "sessions"} {
+					if f.held[recv] == "W" {
+						lock = "W"
+					}
+				}
+				if lock == "none" && f.name == "cache.compact" {
+					lock = "caller" // compact documents that its caller holds the lock; compactCallSites checks the callers
+				}
+				f.p.psites = append(f.p.psites, lkPSite{f.name, "Persistence." + m, lock, f.line(x.Pos())})
+			}
 			if m == "compact" && (rt == "cache" || rt == "") {
 				f.p.sites = append(f.p.sites, lkSite{f.name, f.line(x.Pos()), f.held[exprText(p.c, fun.X)] == "W"})
 			}
@@ -1070,6 +1089,21 @@ func emitLocks(c *Ctx) {
 			o.WriteString(", ")
 		}
 		fmt.Fprintf(o, "(%s, %d, %v)", leanString(s.fn), s.line, s.held)
+	}
+	o.WriteString("]\n\n")
+	o.WriteString("/-- (function, line, callee, cache lock held: \"W\" | \"caller\" | \"none\") for every persistence call made by the cache's own functions -/\n")
+	o.WriteString("def cachePersistenceCalls : List (String × Nat × String × String) := [")
+	sort.SliceStable(p.psites, func(i, j int) bool {
+		if p.psites[i].fn != p.psites[j].fn {
+			return p.psites[i].fn < p.psites[j].fn
+		}
+		return p.psites[i].line < p.psites[j].line
+	})
+	for i, s := range p.psites {
+		if i > 0 {
+			o.WriteString(", ")
+		}
+		fmt.Fprintf(o, "(%s, %d, %s, %s)", leanString(s.fn), s.line, leanString(s.callee), leanString(s.lock))
 	}
 	o.WriteString("]\n\n")
 	sort.SliceStable(p.writes, func(i, j int) bool {
